@@ -1,8 +1,10 @@
 import Acra.Drv.SpecFTI
+import Acra.Drv.SpecFTI2
 import Acra.Drv.SpecSearch
 namespace Acra.Drv
 def specFuncs : List Func := List.flatten [
   specFuncsFTI,
+  specFuncsFTI2,
   specFuncsSearch
 ]
 end Acra.Drv
